@@ -38,15 +38,15 @@ CLAIMS = {
     },
     "C08": {
         "technique": "contract-based deductive verification (Verus) of the extracted real functions",
-        "text": "Unbounded proofs: (1) ParsedValue::get_keys_inner / get_keys: every interpolated variable, every component, "
-                "and the count variable of every range / plural occurring in a value (any nesting depth) is required by the "
-                "accumulator afterwards, and whatever was required before (other locales, other parts) still is -- the "
-                "'nothing is missing from the union' half of the property; (2) InterpolationKeys::push_var / push_comp / "
+        "text": "Unbounded proofs: (1) ParsedValue::get_keys_inner / get_keys: the accumulator requires afterwards exactly "
+                "what it required before (other locales, other parts) plus every interpolated variable, every component and "
+                "the count variable of every range / plural occurring in the value at any nesting depth -- nothing missing "
+                "and nothing spurious (both directions of the union); (2) InterpolationKeys::push_var / push_comp / "
                 "push_count and InterpolOrLit::get_interpol_keys_mut: exact effect on the accumulator, and the count-typing "
                 "rule (accepted iff untyped or same type; range-vs-plural mix and range type mismatch reported with the "
                 "right payload).",
-        "note": "Not shown: the converse (no spurious argument): vstd specifies BTreeMap::values() only as 'every value is "
-                "listed'. Assumed: A3 `BTreeMap::entry(k).or_default()`; Option::replace, mem::take, Box::from; a resolved foreign key contributes what the "
+        "note": "One rewrite I3 (`for v in m.values()` -> `for (_, v) in m.iter()`: vstd specifies values() in one direction "
+                "only). Assumed: A3 `BTreeMap::entry(k).or_default()`; Option::replace, mem::take, Box::from; a resolved foreign key contributes what the "
                 "referenced value contributes; lawfulness of Key / PluralForm ordering. Termination of get_keys_inner is not "
                 "proved (recursion through the RefCell of a foreign key). Not covered: ParsedValue::merge (where the calls per "
                 "locale are made), the typed builder (rustc).",
